@@ -6,7 +6,7 @@ import multiprocessing as mp
 import random
 import warnings
 
-from . import common, pipeline, tlc
+from . import common, findings, pipeline, tlc
 from . import userfns as U
 from .build import slice_arg
 from .common import Result
@@ -173,6 +173,7 @@ def run(prop, tier):
         return res.finish()
     by = collections.Counter()
     nontrivial = 0
+    known = {}
     samples = []
     for rec in records:
         status, clause = verdicts[rec['id']]['C08']
@@ -182,7 +183,12 @@ def run(prop, tier):
             if len(samples) < 3 and nontrivial % 700 == 1:
                 samples.append({'program': short(rec['prog']),
                                 'calls_for_first_2_results': rec['logs']['iters'][min(2, len(rec['logs']['iters']) - 1)]})
-        if status == 'viol':
+        kf = findings.match_demand(prop, clause, rec['prog']) if status == 'viol' else None
+        if kf is not None:
+            known[kf['id']] = known.get(kf['id'], 0) + 1
+            if known[kf['id']] == 1:
+                res.known_finding(kf['id'], kf['what'] + ' e.g. ' + short(rec['prog']))
+        elif status == 'viol':
             res.violation(f'{clause}: {short(rec["prog"])}',
                           {'family': 'demand', 'prog': rec['prog'], 'logs': rec['logs'],
                            'verdict': [status, clause]})
@@ -191,7 +197,7 @@ def run(prop, tier):
     res.coverage.update({
         'traces_validated_against_impl': len(records), 'evaluations': len(records),
         'distinct_nontrivial': nontrivial, 'verdicts': dict(by), 'configs': info,
-        'samples': samples or [{'note': 'none'}],
+        'known_finding_hits': known, 'samples': samples or [{'note': 'none'}],
         'rule': 'one case = one chain program TLC enumerated, executed with logging user functions: '
                 'construction, a fresh iterator for every prefix length k in 0..len+1, ds[i] for every i; '
                 'non-trivial = non-empty dataset with verdict ok'})
